@@ -4,6 +4,7 @@ package main
 // non-escaping locals an instruction / loop / function may modify.
 
 import (
+	"fmt"
 	"go/types"
 	"strings"
 
@@ -58,6 +59,33 @@ func (m *Model) structLeaves(e *Enc, t types.Type, out map[string]string) {
 			m.structLeaves(e, ft, out)
 		} else {
 			out["H$"+si.sort[2:]+"$"+si.st.Field(i).Name()] = m.sortOf(ft)
+		}
+	}
+}
+
+// structLeafPaths: for each leaf array of struct type t, the field-index paths (relative to the struct's
+// own address) under which a value of t keeps data in that array: nil for the struct's own fields,
+// [i] for the fields of a struct-typed field i, and so on.
+func (m *Model) structLeafPaths(t types.Type, prefix []int, out map[string][][]int) {
+	si := m.structOf(t)
+	if si == nil || !isStruct(t) {
+		return
+	}
+	for i := 0; i < si.st.NumFields(); i++ {
+		ft := si.st.Field(i).Type()
+		if isStruct(ft) && m.structOf(ft) != nil {
+			m.structLeafPaths(ft, append(append([]int{}, prefix...), i), out)
+		} else {
+			ln := "H$" + si.sort[2:] + "$" + si.st.Field(i).Name()
+			dup := false
+			for _, q := range out[ln] {
+				if fmt.Sprint(q) == fmt.Sprint(prefix) {
+					dup = true
+				}
+			}
+			if !dup {
+				out[ln] = append(out[ln], append([]int{}, prefix...))
+			}
 		}
 	}
 }
